@@ -94,7 +94,10 @@ static void t_clear(void *c, res_t *r) { T_->clear(T_); rfmt(r, "ok"); }
 static void t_min(void *c, res_t *r) { char *p = T_->find_min(T_, NULL); rfmt(r, "%s", p ? p : "NULL"); free(p); }
 static void t_nearest(void *c, res_t *r) { qtreetbl_obj_t o = T_->find_nearest(T_, "b", 2, true); rfmt(r, "%s=%s", o.name ? (char *)o.name : "NULL", o.data ? (char *)o.data : "-"); free(o.name); free(o.data); }
 static void t_lockedwalk(void *c, res_t *r) { T_->lock(T_); qtreetbl_obj_t o; memset(&o, 0, sizeof o); rfmt(r, "w:"); int n = 0; while (T_->getnext(T_, &o, false) && n++ < 10) radd(r, "%s=%s,", (char *)o.name, (char *)o.data); T_->unlock(T_); }
-static cop_t T_OPS[] = {{"put(a)", t_puta}, {"put(b)", t_putb}, {"put(c)", t_putc}, {"get(a,newmem)", t_geta}, {"get(b,newmem)", t_getb}, {"remove(a)", t_rema}, {"remove(b)", t_remb}, {"clear", t_clear}, {"find_min", t_min}, {"find_nearest(b,newmem)", t_nearest}, {"lock;walk;unlock", t_lockedwalk}};
+/* a second thread-safe table that only this thread uses: its lock does not order it against the shared table, so any
+ * state the implementation shares between tables (file-scope variables) shows up as a data race */
+static void t_owntable(void *c, res_t *r) { (void)c; qtreetbl_t *t = qtreetbl(QTREETBL_THREADSAFE); t->putstr(t, "p", "1"); t->putstr(t, "q", "2"); rfmt(r, "%zu", t->size(t)); t->free(t); }
+static cop_t T_OPS[] = {{"put(a)", t_puta}, {"put(b)", t_putb}, {"put(c)", t_putc}, {"get(a,newmem)", t_geta}, {"get(b,newmem)", t_getb}, {"remove(a)", t_rema}, {"remove(b)", t_remb}, {"clear", t_clear}, {"find_min", t_min}, {"find_nearest(b,newmem)", t_nearest}, {"lock;walk;unlock", t_lockedwalk}, {"own-table put(p),put(q)", t_owntable}};
 
 /* ------------------------------------------------------------ qhashtbl (range 1: every key shares one chain) */
 static void *h_make(int init) { qhashtbl_t *t = qhashtbl(1, QHASHTBL_THREADSAFE); if (init) { t->putstr(t, "a", "1"); t->putstr(t, "b", "2"); } return t; }
